@@ -70,15 +70,14 @@ Theorem C20_closed_forever : forall C evs C' o, ClosedInv C -> run C evs = (C', 
 Proof. exact c20_closed_forever. Qed.
 Print Assumptions C20_closed_forever.
 
-(* The two together, in the words of the property: any history, then close(), then any continuation - after close()
-   returned no connection is attempted, nothing more is written, no timer is armed; metadata stays cleared.
-   PARTIAL only in that the outputs of the close() step itself are not covered by this statement (the monitors check on
-   the implementation that close() itself connects / writes / schedules nothing). *)
-Theorem C20_no_connect_no_write_after_close_partial : forall g evs cl C1 o1 evs2 C2 o2,
+(* The two together, in the words of the property: any history, then close(), then any continuation - from the moment
+   close() is called (its own step included) no connection is attempted, nothing more is written to any broker or
+   bootstrap connection, no timer is armed; and the client stays closed (cache empty, everything resolved). *)
+Theorem C20_no_connect_no_write_after_close : forall g evs cl C1 o1 evs2 C2 o2,
   c_clients (fst (run (init g) evs)) = Some cl -> step (fst (run (init g) evs)) EClose = (C1, o1) -> run C1 evs2 = (C2, o2) ->
-  ClosedInv C2 /\ forallb net_quiet o2 = true.
-Proof. exact c20_after_close. Qed.
-Print Assumptions C20_no_connect_no_write_after_close_partial.
+  forallb net_quiet (o1 ++ o2) = true /\ ClosedInv C2.
+Proof. exact c20_no_connect_no_write. Qed.
+Print Assumptions C20_no_connect_no_write_after_close.
 
 (* F-C20-2, first half.  "Every request in progress fails" is FALSE of the faithful model (and of the code): a
    load_metadata_for_topics() that is bootstrapping when close() is called resolves with None - a success. *)
